@@ -240,7 +240,19 @@ def zgrid(rng, nz, stretched=None):
 
 
 def random_source(rng, ny, nx, kind=None):
-    kind = kind or rng.choice(["random", "sparse", "smooth", "signed"])
+    kind = kind or rng.choice(["random", "sparse", "smooth", "signed", "dipole", "zero"], p=[0.25, 0.2, 0.2, 0.2, 0.1, 0.05])
+    if kind == "zero":
+        return np.zeros((ny, nx))
+    if kind == "dipole":
+        # exactly zero net emission
+        q = np.zeros((ny, nx))
+        a = (int(rng.integers(ny)), int(rng.integers(nx)))
+        b = a
+        while b == a:
+            b = (int(rng.integers(ny)), int(rng.integers(nx)))
+        v = float(rng.uniform(0.5, 2.0))
+        q[a], q[b] = v, -v
+        return q
     if kind == "random":
         return rng.uniform(0, 1, size=(ny, nx))
     if kind == "signed":
